@@ -11,12 +11,12 @@
    open filled, what it put there) of the opens not closed since.  So "for every session, for every entry of that list"
    is "for every handle returned by an open and not yet closed, whatever opens and closes happened in between" (table
    growth / realloc, slot reuse, table reset when the last file closes, file_number_offset). *)
-From Coq Require Import Arith List Bool Lia.
+From Coq Require Import Arith List Bool Lia Sorted.
 From CgnsV Require Import Refcount RefcountProofs Handles HandlesProofs.
 Import ListNotations.
 
 (* ---- (1) a live handle resolves to the slot its open filled ------------------------------------------------------ *)
-Theorem C16_handle_resolves_to_own_slot_mll : forall ops m live, mh_run mll_init [] ops = (m, live) ->
+Theorem C16_handle_resolves_to_own_slot_mll : forall ops m live, mh_run MCur mll_init [] ops = (m, live) ->
   forall e, In e live -> cgi_get_file m (l_h e) = Some (l_slot e) /\ nth (l_slot e) (files m) None = Some (l_tag e).
 Proof. exact mll_handle_resolves. Qed.
 Print Assumptions C16_handle_resolves_to_own_slot_mll.
@@ -34,7 +34,7 @@ Proof. exact adf_handle_resolves. Qed.
 Print Assumptions C16_handle_resolves_to_own_slot_adf.
 
 (* ---- (2) handles of simultaneously open files are pairwise distinct and denote distinct slots ------------------- *)
-Theorem C16_open_handles_distinct_mll : forall ops m live, mh_run mll_init [] ops = (m, live) ->
+Theorem C16_open_handles_distinct_mll : forall ops m live, mh_run MCur mll_init [] ops = (m, live) ->
   NoDup (map l_h live) /\ NoDup (map l_slot live).
 Proof. exact mll_handles_distinct. Qed.
 Print Assumptions C16_open_handles_distinct_mll.
@@ -47,21 +47,28 @@ Print Assumptions C16_open_handles_distinct_cgio_adf.
 
 (* ---- (3) numbers that are not the handle of a file open now ------------------------------------------------------ *)
 (* MLL: exactly the numbers of the files open NOW are accepted; every other number is rejected by cgi_get_file and
-   cg_close of it changes nothing *)
-Theorem C16_closed_handle_rejected_mll : forall ops m live, mh_run mll_init [] ops = (m, live) ->
-  forall fn, ~ In fn (map l_h live) -> cgi_get_file m fn = None /\ forall ok, cg_close m fn ok = (m, false).
+   cg_close of it changes nothing ... *)
+Theorem C16_closed_handle_rejected_mll : forall ops m live, mh_run MCur mll_init [] ops = (m, live) ->
+  forall fn, ~ In fn (map l_h live) -> cgi_get_file m fn = None /\ forall ok, cg_close MCur m fn ok = (m, false).
 Proof. exact mll_closed_handle_rejected. Qed.
 Print Assumptions C16_closed_handle_rejected_mll.
 
-(* ... but "once closed, rejected for ever" is FALSE: cg_close ASSIGNS file_number_offset = n_cgns_files when the last
-   file closes, so numbers are issued again from the third generation of opens on.  Witness: open (1), close; open (2),
-   open (3), close both; open -> 3 again; the stale 3 now resolves to the entry of the new file. *)
-Theorem C16_mll_number_reissued_refuted :
-  mh_numbers mll_init [] reissue_ops = [Some 1; Some 2; Some 3; Some 3] /\
-  exists m live, mh_run mll_init [] reissue_ops = (m, live) /\ live = [(3, 0, 3)] /\ cgi_get_file m 3 = Some 0 /\
+(* ... and a number, once closed, stays rejected for ever: every number cg_open returns is greater than every number it
+   returned before in this process (file_number_offset += n_cgns_files since /repo ecfdd66), so a stale number is never
+   live again and can never come to designate a later file *)
+Theorem C16_mll_numbers_never_reissued : forall ops, StronglySorted lt (somes (mh_numbers MCur mll_init [] ops)).
+Proof. exact mll_numbers_never_reissued. Qed.
+Print Assumptions C16_mll_numbers_never_reissued.
+
+(* the OLD arithmetic (MOld: cg_close ASSIGNED file_number_offset = n_cgns_files): numbers were issued again from the third
+   generation of opens on.  Witness: open (1), close; open (2), open (3), close both; open -> 3 again; the stale 3 then
+   resolved to the entry of the new file.  The witness session is a regression input (corpus/C16b). *)
+Theorem C16_mll_number_reissued_old_refuted :
+  mh_numbers MOld mll_init [] reissue_ops = [Some 1; Some 2; Some 3; Some 3] /\
+  exists m live, mh_run MOld mll_init [] reissue_ops = (m, live) /\ live = [(3, 0, 3)] /\ cgi_get_file m 3 = Some 0 /\
                  nth 0 (files m) None = Some 3.
-Proof. exact mll_number_reissued. Qed.
-Print Assumptions C16_mll_number_reissued_refuted.
+Proof. exact mll_number_reissued_old. Qed.
+Print Assumptions C16_mll_number_reissued_old_refuted.
 
 (* cgio: every function that looks at the slot refuses such a number and nothing changes (cgio_close_file, and the
    cgio_get_node_id / cgio_get_label of a traversal) *)
@@ -89,7 +96,7 @@ Print Assumptions C16_closed_handle_rejected_adf.
 
 (* ---- (4) closing one file changes no other file's slot ------------------------------------------------------------ *)
 Theorem C16_close_touches_one_slot_mll : forall ops m live fn ok m' live' x,
-  mh_run mll_init [] ops = (m, live) -> mh_step m live (MClose fn ok) = (m', live', x) ->
+  mh_run MCur mll_init [] ops = (m, live) -> mh_step MCur m live (MClose fn ok) = (m', live', x) ->
   forall e, In e live -> l_h e <> fn ->
     In e live' /\ cgi_get_file m' (l_h e) = Some (l_slot e) /\ nth (l_slot e) (files m') None = Some (l_tag e).
 Proof. exact mll_close_touches_one_slot. Qed.
@@ -115,7 +122,10 @@ Example C16b_example_cgio_adf :
                  map l_h live = [1; 8; 7; 6; 5; 4; 2; 3].
 Proof. exact io_example8. Qed.
 
+Example C16b_reissue_witness_now : mh_numbers MCur mll_init [] reissue_ops = [Some 1; Some 2; Some 3; Some 4].
+Proof. exact mll_reissue_witness_now. Qed.
+
 Example C16b_example_mll :
-  exists m live, mh_run mll_init [] mops8 = (m, live) /\ length live = 7 /\ n_open m = 7 /\ fsize m = 16 /\
+  exists m live, mh_run MCur mll_init [] mops8 = (m, live) /\ length live = 7 /\ n_open m = 7 /\ fsize m = 16 /\
                  map l_h live = [10; 9; 8; 7; 6; 5; 4].
 Proof. exact mll_example8. Qed.
